@@ -379,6 +379,9 @@ def _explore(cfg, acq_node, var, flagvars):
         elif a is not None and node.kind in ("stmt", "test") and var and _stmt_closes(a, var):
             if hs == 1:
                 hs_norm = hs_exc = 2
+        elif node.kind == "with-enter" and isinstance(a, (ast.With, ast.AsyncWith)) and hs == 1 and var and any(
+                isinstance(it.context_expr, ast.Name) and it.context_expr.id == var for it in a.items):
+            hs_norm = hs_exc = 2     # `with <handle> as f:` - a file object is its own context manager and closes itself on every exit
         elif node.kind == "stmt" and isinstance(a, ast.Return) and hs == 1 and a.value is not None and var:
             if any(isinstance(s, ast.Name) and s.id == var for s in ast.walk(a.value)):
                 hs_norm = 2      # ownership handed to the caller
@@ -426,6 +429,13 @@ def rule_typestate(ctx, only=None):
             n_sites += 1
             site = "%s#%s@%s" % (fi.qual, kind.split(":")[0], _site_role(fi, call))
             if with_stmt is not None:
+                ylds = [y for st_ in with_stmt.body for y in ast.walk(st_) if isinstance(y, (ast.Yield, ast.YieldFrom))]
+                if ylds:
+                    ctx.bad("IO.TYPESTATE", site, fi, call, "the with-statement that owns the handle from %s contains a `yield`: while the "
+                            "generator %s is suspended there the file stays open, and when the consumer stops early (an exception in "
+                            "the consumer, a break) it is closed only when the generator object is finalised - not by the time the call "
+                            "that opened it returns or raises" % (ast.unparse(call.func), fi.qual))
+                    continue
                 ctx.ok("IO.TYPESTATE", site, fi, call, "handle acquired by %s is released by the enclosing "
                        "with-statement on every exit" % ast.unparse(call.func))
                 continue
@@ -445,6 +455,10 @@ def rule_typestate(ctx, only=None):
                     # returned directly?  `return open(...)` hands ownership over without a name
                     if isinstance(stmt, ast.Return):
                         continue
+                    if isinstance(stmt, ast.Expr) and isinstance(stmt.value, ast.Yield) and any(x is call for x in ast.walk(stmt.value)):
+                        bad = ("undecided", "the handle is yielded to the consumer of the generator %s: it is the consumer's to close "
+                               "(where the generator is expanded into its consumer that copy is checked)" % fi.qual)
+                        break
                     bad = ("handle from %s is not bound to a local name (%s): cannot be closed on all paths"
                            % (ast.unparse(call.func), ast.unparse(stmt)[:80]), None)
                     break
@@ -455,7 +469,9 @@ def rule_typestate(ctx, only=None):
                            % (var, call.lineno, "exceptional" if last.kind == "raise-exit" else "normal", fi.qual),
                            cfg.describe_path(path[path.index(nid):]))
                     break
-            if bad:
+            if bad and bad[0] == "undecided":
+                ctx.undecided("IO.TYPESTATE", site, fi, call, bad[1])
+            elif bad:
                 ctx.bad("IO.TYPESTATE", site, fi, call, bad[0], bad[1])
             else:
                 ctx.ok("IO.TYPESTATE", site, fi, call,
